@@ -25,6 +25,14 @@ CHECKS = {
             "Trusted: Coq kernel, translator, harness; std::path component semantics on normalised path strings, HashSet/HashMap as sets. No axioms.",
             "Rocq/Coq proof (invariants over lists) + differential correspondence + independent Python monitors on implementation output",
             "DESIGN.md section 6 C17"),
+    "C18": (True,
+            "Coq proofs of the argv construction (exec: program and arguments verbatim, one element each; shell: prog, options, program "
+            "option, command, extra args in that order), wrapper choice, and the CLI's interpretation (no-shell verbatim, shell string split "
+            "on ASCII whitespace, single-space join). PARTIAL: the OS half (execve byte-for-byte delivery, setsid/setpgid, env/cwd inheritance) "
+            "is validated by spawning a reporting helper through a real Job on generated hostile argument vectors, not proved.",
+            "Trusted: Coq kernel, harness; std::process::Command/execve, process-wrap wrappers and the kernel are outside the model and only sampled. No axioms.",
+            "Rocq/Coq proof of the argv/wrapper/CLI logic + differential runs with real child processes",
+            "DESIGN.md section 6 C18"),
     "C19": (True,
             "Coq proofs over source-translated signal tables: display/parse round trip for every signal, case-insensitivity for all strings, agreement of the three spellings, Windows-name precedence, POSIX numbers, wait-status decoding for all codes and signals, the --map-signal splitter; model run against the real crates exhaustively over numbers, names in all case patterns and wait statuses.",
             "Trusted: Coq kernel, translator, harness; nix signal table, i32::from_str, to_ascii_uppercase, ExitStatusExt are modelled (nix table compared exhaustively each run). No axioms.",
